@@ -103,9 +103,22 @@ Theorem C27_orphan_siblings_connected :
 Proof. exact orphan_history_invisible. Qed.
 Print Assumptions C27_orphan_siblings_connected.
 
-Theorem C27_no_panic_refuted : ~ C27_no_panic_full.
-Proof. exact no_panic_refuted. Qed.
-Print Assumptions C27_no_panic_refuted.
+(** ProcessBlock never panics, from any state (the nil-fork guard in
+    connectBestChain: a block whose parent links no longer lead to the best
+    chain is refused). *)
+Theorem C27_no_panic :
+  forall (verr : N -> N -> N) (fin : Z) (s : vstate) (i : item),
+    snd (snd (vdeliver verr fin s i)) <> VPanic.
+Proof. exact no_panic. Qed.
+Print Assumptions C27_no_panic.
+
+(** the history that used to panic: the descendant 24 of the block deleted
+    from the index is refused, the tip stays *)
+Theorem C27_nil_fork_refused :
+  snd (vdeliver n_verr 0 (vrun n_verr 0 w_root n_hist) (mkI (mkB 24 22 15 1) 0 PBcast)) = (false, false, VParent)
+  /\ vtip (vstep n_verr 0 (vrun n_verr 0 w_root n_hist) (mkI (mkB 24 22 15 1) 0 PBcast)) = 23%N.
+Proof. exact nil_fork_refused. Qed.
+Print Assumptions C27_nil_fork_refused.
 
 (** With only valid deliveries and heights that are consistent along the
     parent links the model makes exactly the moves of C25's chain-selection
